@@ -612,6 +612,27 @@ func main() {
 			total[k] += v
 		}
 	}
+	// accessor for package-level variables (harnesses reset package state between
+	// executions and read it for diagnostics); generated from whatever variables exist
+	{
+		var names []string
+		sc := pkg.Scope()
+		for _, n := range sc.Names() {
+			if v, ok := sc.Lookup(n).(*types.Var); ok && n != "_" {
+				_ = v
+				names = append(names, n)
+			}
+		}
+		var b bytes.Buffer
+		fmt.Fprintf(&b, "// Code generated by vinst; DO NOT EDIT.\n\npackage %s\n\n// VsGlobals returns the addresses of the package-level variables.\nfunc VsGlobals() map[string]interface{} {\n\treturn map[string]interface{}{\n", pkg.Name())
+		for _, n := range names {
+			fmt.Fprintf(&b, "\t\t%q: &%s,\n", n, n)
+		}
+		fmt.Fprintf(&b, "\t}\n}\n")
+		if err := os.WriteFile(filepath.Join(*out, "vs_globals_gen.go"), b.Bytes(), 0o644); err != nil {
+			fatal("%v", err)
+		}
+	}
 	// module file and runtime
 	gomod := "module " + bp.ImportPath + "\n\ngo 1.23.12\n"
 	if b, err := os.ReadFile(filepath.Join(*src, "go.mod")); err == nil {
